@@ -173,10 +173,17 @@ func (i *Interface) getRecord(dbName string, dbKey string, mustBeWriteable bool)
 
 	r = i.checkCache(dbName + ":" + dbKey)
 	if r != nil {
-		if !i.options.hasAccessPermission(r) {
-			return nil, db, ErrPermissionDenied
+		// A cached record may have been deleted or may have expired since:
+		// only use it if it is still valid, else ask the storage.
+		r.Lock()
+		valid := r.Meta().CheckValidity()
+		r.Unlock()
+		if valid {
+			if !i.options.hasAccessPermission(r) {
+				return nil, db, ErrPermissionDenied
+			}
+			return r, db, nil
 		}
-		return r, db, nil
 	}
 
 	r, err = db.Get(dbKey)
